@@ -123,11 +123,13 @@ def main(argv=None):
         common.impl()
         rep = json.load(open(args.replay, encoding="utf-8"))
         ctx = Ctx(prop, tier, seed, False, os.path.exists(common.DRIVER))
-        if hasattr(mod, "replay"):
+        if hasattr(mod, "replay") and rep.get("failure"):
             mod.replay(ctx, rep)
         else:
-            print("no replay function for", prop)
-            return 2
+            # generic replay: every random choice derives from (property, seed), so re-running the property
+            # module with the recorded seed and tier regenerates the same cases
+            ctx = Ctx(prop, rep.get("tier", tier), int(rep.get("seed", seed)), False, os.path.exists(common.DRIVER))
+            mod.run(ctx)
         bad = ctx.failures
         print(json.dumps({"failures": bad[:5], "disagreements": ctx.disagreements[:5]}, indent=1,
                          ensure_ascii=False, default=str))
